@@ -11,6 +11,7 @@ let handle kind c =
     let scen = next c in
     let status = next c in
     let iw = next_z c in let ip = next_z c in let ic = next_z c in let ipers = next_z c in
+    let full = next_bool c in
     let faults = next_int c in
     let faults_new = next_int c in
     let nth = next_int c in
@@ -22,7 +23,7 @@ let handle kind c =
         | "ext" -> changer SameFile
         | _ -> failwith ("thread kind " ^ k)) specs in
     let nsteps = next_int c in
-    let st = ref (init_of iw ip ic ipers, threads) in
+    let st = ref (init_of iw ip ic ipers full, threads) in
     let spawned = Array.make nth false in
     let init_total = Z.add ipers (w_extra iw) in
     let begun = ref init_total in
